@@ -242,6 +242,23 @@ class Party(sut.BaseAlgorithm):
                 s.max_rates[:] = -99.0
             except Exception:
                 pass
+        # EV objects handed out by the (deprecated but public) active_evs accessor: a look-ahead scheduler may well
+        # 'charge' its copies to predict the battery response
+        import warnings as _w
+        with _w.catch_warnings():
+            _w.simplefilter("ignore")
+            evs = list(iface.active_evs)
+        tape = np.random.normal      # the run's noise tape belongs to the environment: a look-ahead must not advance it
+        np.random.normal = lambda loc=0.0, scale=1.0, size=None: loc
+        try:
+            for ev in evs:
+                try:
+                    ev.charge(16.0, 208.0, 5.0)
+                    ev.update_station_id("JUNK")
+                except Exception:
+                    pass
+        finally:
+            np.random.normal = tape
         handed = [iface.infrastructure_info()]
         if self.ctx.mutate_constraints:
             handed.append(iface.get_constraints())
